@@ -312,9 +312,8 @@ def jobs(tier, seed):
     nf = 6 if tier == "quick" else 60
     fams = [("h_family", {"fam": seed * 1000 + f, "n": 5 if f % 2 == 0 else 4, "sym": [f % 4], "min_zero": f % 3 != 0}) for f in range(nf)]
     scen = [("h_scenario", {"kind": "head_cut_then_append"}), ("h_scenario", {"kind": "prefix_kept"}), ("h_scenario", {"kind": "both_sides"}),
-            ("h_scenario3d", {"kind": "tail_cut"}), ("h_scenario3d", {"kind": "both_sides_head_cut"}), ("h_scenario3d", {"kind": "ring"}), ("h_two_tomograms", {})]
-    if tier == "thorough":
-        scen.append(("h_scenario3d", {"kind": "stale_flag"}))
+            ("h_scenario3d", {"kind": "tail_cut"}), ("h_scenario3d", {"kind": "both_sides_head_cut"}), ("h_scenario3d", {"kind": "ring"}), ("h_two_tomograms", {}),
+            ("h_scenario3d", {"kind": "stale_flag"})]     # ten-particle history; in the quick tier since round 5 (it was thorough-only and the only way C19-9 is seen)
     if tier == "thorough":
         scen += [("h_scenario", {"kind": k, "order": list(o)}) for k in ("head_cut_then_append", "prefix_kept", "both_sides") for o in itertools.permutations(range(4)) if list(o) != [0, 1, 2, 3] and (k != "both_sides" or o[0] < o[1])]
     j = j[:2] + scen + fams + j[2:]
